@@ -12,6 +12,8 @@ from . import core
 
 MODULES = {
     "C19": "p_generic",
+    "C01": "p_spec",
+    "C05": "p_spec",
 }
 
 
@@ -41,6 +43,8 @@ def main() -> int:
             mod.run(run)
         if run.proof.get("build_ok"):
             run.compare_with_model()
+        if run.disagreements and not run.failures and hasattr(mod, "search"):
+            mod.search(args.prop, run)
         # entries recorded as fixed suppress nothing: replay them, they must pass
         _known, fixed = core.load_known(args.prop)
         for e in fixed:
